@@ -21,6 +21,8 @@ pub mod error;
 pub use error::{Error, Result};
 #[path = "gen/payment_vault.rs"]
 pub mod payment_vault;
+#[path = "gen/node_quote.rs"]
+pub mod node_quote;
 #[path = "gen/put_validation.rs"]
 pub mod put_validation;
 #[path = "gen/split_items.rs"]
@@ -33,5 +35,6 @@ fn main() {
     let mut v = put_validation::harness::harnesses();
     v.extend(data_payments::harness::harnesses());
     v.extend(client_items::harness::harnesses());
+    v.extend(node_quote::harness::harnesses());
     runner::main_dispatch(v);
 }
